@@ -11,6 +11,8 @@ class Models:
         self.allocs = {}
         self._cache_lookup = {}
         self.install()
+        from . import stdmodels
+        stdmodels.install(self, front=False)      # generic combinators fill the gaps
 
     def reg(self, pat):
         def deco(fn):
@@ -43,7 +45,7 @@ class Models:
             return x
 
         # ---- panics
-        @R(r"^core::panicking::panic(_fmt|_nounwind|_explicit)?$|^std::rt::panic_fmt$|^core::panicking::panic_const|^core::panicking::assert_failed|^std::rt::begin_panic|^core::panicking::unreachable_display|^core::option::unwrap_failed|^core::result::unwrap_failed|^core::option::expect_failed")
+        @R(r"^panic$|^panic_fmt$|^core::panicking::panic(_fmt|_nounwind|_explicit)?$|^std::rt::panic_fmt$|^core::panicking::panic_const|^core::panicking::assert_failed|^std::rt::begin_panic|^core::panicking::unreachable_display|^core::option::unwrap_failed|^core::result::unwrap_failed|^core::option::expect_failed")
         def _panic(ex, c, a):
             msg = a[0] if a and isinstance(a[0], str) else (a[0].what if a and isinstance(a[0], Opaque) else c)
             raise Panic(f"{msg}")
